@@ -7,6 +7,8 @@ From VD Require Import Base.Words Model.Layout Model.Queue Extract.QueueIO Extra
 From VD Require Extract.TeardownIO.
 (* C11 / C13, x86-64 hypercall PCI transport: required without Import as well *)
 From VD Require Model.HypPci Extract.HypPciIO.
+(* the alloc-less build of the crate (kind 3): Model/QueueNoAlloc.v *)
+From VD Require Import Model.QueueNoAlloc Extract.QueueNoAllocIO.
 
 Inductive mstate :=
 | MNone
@@ -24,7 +26,8 @@ Inductive mstate :=
 | MMisc (q : option qstate)
 | MPci (t : option Model.Pci.ptrans)
 | MInput (i : option istate)
-| MHyp (t : option HypPci.htrans).
+| MHyp (t : option HypPci.htrans)
+| MNoAlloc (inner : mstate).   (* the scenario comes from the alloc-less build; `inner` is its model state *)
 
 Definition bad : list N := [77777].
 
@@ -32,12 +35,12 @@ Definition bad : list N := [77777].
 Definition is_diag (k : N) : bool := (k =? 140).
 
 Definition is_monitor (k : N) : bool :=
-  (k =? 1) || (k =? 2) || (k =? 612) || (k =? 613) || ((150 <=? k) && (k <? 170)) || (k =? 1950) || (k =? 1951) || (k =? 1952) || mmio_is_monitor k || pci_is_monitor k || blk_is_monitor k || console_is_monitor k || config_is_monitor k || net_is_monitor k || connmgr_is_monitor k || vsock_is_monitor k || TeardownIO.teardown_is_monitor k || init_is_monitor k || gpu_is_monitor k || misc_is_monitor k || pcit_is_monitor k || sound_is_monitor k || input_is_monitor k || HypPciIO.hyp_is_monitor k.
+  (k =? 1) || (k =? 2) || (k =? 612) || (k =? 613) || ((149 <=? k) && (k <? 170)) || (k =? 1950) || (k =? 1951) || (k =? 1952) || mmio_is_monitor k || pci_is_monitor k || blk_is_monitor k || console_is_monitor k || config_is_monitor k || net_is_monitor k || connmgr_is_monitor k || vsock_is_monitor k || TeardownIO.teardown_is_monitor k || init_is_monitor k || gpu_is_monitor k || misc_is_monitor k || pcit_is_monitor k || sound_is_monitor k || input_is_monitor k || HypPciIO.hyp_is_monitor k || na_is_monitor k.
 
 Definition dir_reads (d : N) : bool := (d =? 0) || (d =? 2).
 Definition dir_writes (d : N) : bool := (d =? 1) || (d =? 2).
 
-Definition step (st : mstate) (k : N) (ins : list N) : mstate * list N :=
+Definition step_alloc (st : mstate) (k : N) (ins : list N) : mstate * list N :=
   (* generic: 1 = ledger violations, 2 = leaked regions / shares; both expected 0 *)
   if k =? 1 then (st, [0]) else
   if k =? 2 then (st, [0]) else
@@ -136,9 +139,37 @@ Definition step (st : mstate) (k : N) (ins : list N) : mstate * list N :=
   else if (1900 <=? k) && (k <? 1950) then
     let q := match st with MOwning q => q | _ => None end in
     let '(q', o) := owning_step q k ins in (MOwning q', o)
-  else if (150 <=? k) && (k <? 170) then (st, queue_monitor k ins)
+  else if (149 <=? k) && (k <? 170) then (st, queue_monitor k ins)
   else if (100 <? k) && (k <? 150) then
     match st with
     | MQueue q => let '(q', o) := queue_step q k ins in (MQueue q', o)
     | _ => (st, bad) end
   else (st, bad).
+
+(* ---- the alloc-less build (`--no-default-features`) ----
+   A kind-3 line at the start of a scenario says that the trace comes from the harness variant built without the cargo
+   feature `alloc`.  From then on: VirtQueue::new / add / pop_used / available_desc are those of Model/QueueNoAlloc.v, the
+   other queue kinds and every monitor are the shared ones, and a queue created by a driver model (blk, raw net, rng / rtc)
+   is forced to `q_indirect = false` (see Extract/QueueNoAllocIO.v). *)
+Definition step_na (st : mstate) (k : N) (ins : list N) : mstate * list N :=
+  if k =? 100 then match na_queue_new ins with Some q => (MQueue q, []) | None => (st, bad) end
+  else if na_is_monitor k then (st, na_monitor k ins)
+  else if (100 <? k) && (k <? 150) then
+    match st with
+    | MQueue q => let '(q', o) := na_queue_step q k ins in (MQueue q', o)
+    | _ => (st, bad) end
+  else
+    let '(st', o) := step_alloc st k ins in
+    (match st' with
+     | MQueue q => MQueue (na_force_q q)
+     | MBlk (Some b) => MBlk (Some (na_force_blk b))
+     | MNet (Some n) => MNet (Some (na_force_net n))
+     | MMisc (Some q) => MMisc (Some (na_force_q q))
+     | _ => st'
+     end, o).
+
+Definition step (st : mstate) (k : N) (ins : list N) : mstate * list N :=
+  match st with
+  | MNoAlloc i => let '(i', o) := step_na i k ins in (MNoAlloc i', o)
+  | _ => if k =? 3 then (MNoAlloc MNone, []) else step_alloc st k ins
+  end.
